@@ -12,6 +12,7 @@ import (
 	"io"
 	"net"
 	"os"
+	"reflect"
 	"runtime"
 	"strconv"
 	"strings"
@@ -19,6 +20,7 @@ import (
 	"sync/atomic"
 	"syscall"
 	"time"
+	"unsafe"
 
 	"github.com/pinealctx/neptune/stcp"
 	"github.com/pinealctx/neptune/ulog"
@@ -270,7 +272,8 @@ func sessionGoroutines() []string {
 	for _, blk := range strings.Split(string(buf), "\n\n") {
 		// a goroutine that was created by Start but has not run yet shows only the
 		// compiler's wrapper (Start.func1.gowrapN), not the loop function
-		if strings.Contains(blk, "stcp.(*Session).loopSend") || strings.Contains(blk, "stcp.(*Session).loopReceive") || strings.Contains(blk, "stcp.(*Session).Start.func") {
+		if strings.Contains(blk, "stcp.(*Session).loopSend") || strings.Contains(blk, "stcp.(*Session).loopReceive") || strings.Contains(blk, "stcp.(*Session).Start.func") ||
+			strings.Contains(blk, "c16stcp.echoHandler.RunEcho") || strings.Contains(blk, "stcp.(*Echo).Start.func") {
 			out = append(out, blk)
 		}
 	}
@@ -634,6 +637,10 @@ type CaseSrv struct {
 	Concurrent bool `json:"concurrent"`
 	Release    int  `json:"release"` // after the dials: number of live sessions whose client closes
 	Redials    int  `json:"redials"` // then: further sequential dials
+	// Echo: the server's connection manager is an EchoMgr (request/response sessions: the handler's RunEcho owns the
+	// connection and gives the slot back with ReleaseRef) instead of a SessionMgr. Srvx: built through NewTCPSrvX.
+	Echo bool `json:"echo,omitempty"`
+	SrvX bool `json:"srvx,omitempty"`
 }
 
 func GenSrv(t *rapid.T) CaseSrv {
@@ -642,7 +649,27 @@ func GenSrv(t *rapid.T) CaseSrv {
 	c.Concurrent = rapid.Bool().Draw(t, "concurrent")
 	c.Release = rapid.IntRange(0, c.MaxConn).Draw(t, "release")
 	c.Redials = rapid.IntRange(0, 3).Draw(t, "redials")
+	switch rapid.IntRange(0, 3).Draw(t, "mgr") {
+	case 0:
+		c.Echo = true
+	case 1:
+		c.SrvX = true
+	}
 	return c
+}
+
+// echoHandler holds an echo session open until the client closes, then disposes of it the documented way.
+type echoHandler struct{}
+
+func (echoHandler) RunEcho(s *stcp.Echo) {
+	var b [1]byte
+	for s.Read(b[:]) == nil {
+		if s.Send(b[:]) != nil {
+			break
+		}
+	}
+	s.Close()
+	s.ReleaseRef()
 }
 
 type holdHandler struct {
@@ -716,8 +743,27 @@ func ExecSrv(c CaseSrv) *vkit.Result {
 	// process could take the port, or dial ours); the port it got is read back from the
 	// process's own listening sockets in /proc.
 	h := &holdHandler{}
-	mgr := stcp.NewSessionMgr(h, stcp.WithReadTimeout(longTO), stcp.WithWriteTimeout(longTO))
-	srv := stcp.NewTCPSrv("127.0.0.1:0", mgr)
+	var mgr stcp.IConnMgr
+	var srv *stcp.Server
+	perSession := 2 // goroutines per live session
+	switch {
+	case c.Echo:
+		mgr = stcp.NewEchoMgr(echoHandler{}, stcp.WithReadTimeout(longTO), stcp.WithWriteTimeout(longTO))
+		srv = stcp.NewTCPSrv("127.0.0.1:0", mgr)
+		perSession = 1
+		res.Class("echo-manager")
+	case c.SrvX:
+		srv = stcp.NewTCPSrvX("127.0.0.1:0", h, stcp.WithReadTimeout(longTO), stcp.WithWriteTimeout(longTO))
+		mgr = srvMgr(srv)
+		if mgr == nil {
+			res.Skip("srvx-manager-not-reachable")
+			return res
+		}
+		res.Class("srvx")
+	default:
+		mgr = stcp.NewSessionMgr(h, stcp.WithReadTimeout(longTO), stcp.WithWriteTimeout(longTO))
+		srv = stcp.NewTCPSrv("127.0.0.1:0", mgr)
+	}
 	beforePorts := ownListenPorts()
 	errCh := srv.Start(stcp.WithMaxConn(int32(c.MaxConn)))
 	addr := ""
@@ -887,7 +933,7 @@ func ExecSrv(c CaseSrv) *vkit.Result {
 		released++
 		open--
 		if !waitFor(func() bool { return int(mgr.ConnCount()) == open }, patience) {
-			if len(sessionGoroutines()) <= 2*open {
+			if len(sessionGoroutines()) <= perSession*open {
 				return res.Failf("count-not-restored", "a client closed its connection and its session goroutines are gone, but ConnCount stays at %d (want %d)", mgr.ConnCount(), open)
 			}
 			vkit.Infra("session did not end within %v after the client closed", patience)
@@ -957,4 +1003,15 @@ func acceptLoopIdle() bool {
 		}
 	}
 	return false
+}
+
+// srvMgr reads the connection manager a server was built with (NewTCPSrvX creates it internally and offers no
+// accessor); nil if the field is not there any more.
+func srvMgr(srv *stcp.Server) stcp.IConnMgr {
+	f := reflect.ValueOf(srv).Elem().FieldByName("ch")
+	if !f.IsValid() || !f.CanAddr() {
+		return nil
+	}
+	m, _ := reflect.NewAt(f.Type(), unsafe.Pointer(f.UnsafeAddr())).Elem().Interface().(stcp.IConnMgr)
+	return m
 }
